@@ -100,7 +100,13 @@ def lenL : List (Geom α) → Except Fault Nat
   | g :: gs => do let a ← lenG g; let b ← lenL gs; pure (a + b)
 end
 
-/-! ## Bounds() -/
+/-! ## Bounds()
+
+`boundsG` (like `lenG`, `init`/`next`, `Box.new`, `Box.copy`, `Box.intersection`) is a *pure function* of
+its arguments: the model has no package-level state and every result is a fresh value.  Hence any
+dependence of the implementation's answer on call history — earlier calls, or the caller mutating a
+box it was handed earlier (`acc := g.Bounds(); acc.Extend(…)`) — is a SPEC/DIFF verdict.  The
+harness provokes this on every line (`hist` probes; `poison` in harness/cmd/c04). -/
 
 section bounds
 variable [LE α] [LT α] [Min α] [Max α] [DecidableLE α] [DecidableLT α] [HasInf α]
